@@ -882,8 +882,9 @@ def _run_url_vars(rng, scale, driver, out):
     from pyopenapi_gen.emitters.endpoints_emitter import EndpointsEmitter
     idpool = ["foo", "foo_2", "Foo", "bar", "foo_2_2", "get-x", "get_x"]
     reqs, impls = [], []
-    for _ in range(max(10, int(80 * scale))):
-        ids = [rng.choice(idpool) for _ in range(rng.randint(0, 5))]
+    # random id lists, then the former witness of F17 (it used to give foo,foo_2,foo_2 and, run again, foo,foo_2,foo_2_2)
+    idlists = [[rng.choice(idpool) for _ in range(rng.randint(0, 5))] for _ in range(max(10, int(80 * scale)))]
+    for ids in idlists + [["foo", "foo", "foo_2"]]:
         ops = [types.SimpleNamespace(operation_id=i) for i in ids]
         em = EndpointsEmitter.__new__(EndpointsEmitter)
         em._deduplicate_operation_ids_globally(ops)
@@ -892,13 +893,13 @@ def _run_url_vars(rng, scale, driver, out):
         twice = [o.operation_id for o in ops]
         reqs.append(("dedupTwice", ids))
         impls.append([once, twice])
-    reqs.append(("dedupTwice", ["foo", "foo", "foo_2"]))
-    impls.append([["foo", "foo_2", "foo_2"], ["foo", "foo_2", "foo_2_2"]])
     res = _drive(driver, reqs)
     for q, impl, m in zip(reqs, impls, res):
         out["comparisons"] += 1
-        if impl[0] != impl[1]:
+        if impl[0] != q[1]:
             out["nontrivial_keys"].add("dedup2:" + json.dumps(q[1]))
+            out["distribution"]["dedup_suffix_added"] = out["distribution"].get("dedup_suffix_added", 0) + 1
+        if impl[0] != impl[1]:
             out["distribution"]["dedup_not_idempotent"] = out["distribution"].get("dedup_not_idempotent", 0) + 1
         if m != impl:
             out["disagreements"].append({"label": "dedupTwice", "request": q[1], "model": m, "impl": impl})
